@@ -552,6 +552,11 @@ Proof.
   - rewrite app_length, repeat_length, firstn_length. lia.
 Qed.
 
+Lemma read_headers_H_gen io_dec_hdrs d hw rest :
+  read_headers io_dec_hdrs d (ITag t_H :: IVal hw :: rest) =
+  (io_dec_hdrs d false hw, rest, [DNext t_H; DRead false hw; DReset]).
+Proof. reflexivity. Qed.
+
 Section C07.
 Variable fuel : nat.
 Variable hp : heap.
@@ -1131,6 +1136,33 @@ Qed.
 
 End C07.
 
+(* ---- a decode failure in the header map is reported only when an argument list follows *)
+
+Theorem header_error_dropped : forall lower io_dec io_dec_hdrs so svc hw name m,
+  io_dec_hdrs (s_dec so) false hw = None -> lookup lower svc name = Some m ->
+  fst (service_decode_items lower io_dec io_dec_hdrs so svc
+         [ITag t_H; IVal hw; ITag t_C; IVal (string_wire name); ITag t_z]) =
+  SDDirty {| rq_name := name; rq_headers := []; rq_method := m; rq_args := [] |}.
+Proof.
+  intros lower io_dec io_dec_hdrs so svc hw name m Hd Hlk.
+  unfold service_decode_items. rewrite read_headers_H_gen, Hd.
+  unfold service_decode_call. change (Byte.eqb t_C t_C) with true. cbn iota.
+  rewrite dec_string_wire, Hlk. reflexivity.
+Qed.
+
+Theorem header_error_reported_with_arguments : forall lower io_dec io_dec_hdrs so svc hw name m ws,
+  io_dec_hdrs (s_dec so) false hw = None -> lookup lower svc name = Some m ->
+  fst (service_decode_items lower io_dec io_dec_hdrs so svc
+         [ITag t_H; IVal hw; ITag t_C; IVal (string_wire name); IVal (WList ws); ITag t_z]) = SDDecodeError.
+Proof.
+  intros lower io_dec io_dec_hdrs so svc hw name m ws Hd Hlk.
+  unfold service_decode_items. rewrite read_headers_H_gen, Hd.
+  unfold service_decode_call. change (Byte.eqb t_C t_C) with true. cbn iota.
+  rewrite dec_string_wire, Hlk.
+  destruct (io_dec (s_dec so) (get_bool s_simple_key [])
+              (if m_missing m then TIfaceSlice else TTuple (param_types m (length ws))) (WList ws)); reflexivity.
+Qed.
+
 (* ================================================================== D. the JSON-RPC envelope *)
 
 Section JsonRpcProofs.
@@ -1332,6 +1364,31 @@ Proof.
     + destruct Hf as [[Hl1 Hl2] [Hrv Hfa]].
       assert (Esl : shape vs = GSlice vs) by (destruct vs as [|v1 [|v2 vs']]; cbn in Hl1; try lia; reflexivity).
       rewrite Esl, Harray. rewrite (jconv_results_ok vs _ Hl2 Hrv Hfa). reflexivity.
+Qed.
+
+(* more results than declared return types (two or more declared): the client indexes past ReturnType *)
+Lemma jconv_results_overflow : forall ts vs extra, length ts = length vs -> extra <> [] ->
+  Forall jrep vs -> jfits_all ts vs ->
+  jconv_results jconv ts (map jnorm vs ++ extra) = None.
+Proof.
+  induction ts as [|t ts IH]; intros [|v vs] extra Hl Hex Hr Hf; try discriminate.
+  - destruct extra; [contradiction|reflexivity].
+  - cbn [map app jconv_results]. inversion Hr; subst. destruct Hf as [Hf1 Hf2].
+    rewrite (Hvalue _ _ H1 Hf1). rewrite (IH vs extra ltac:(cbn in Hl; lia) Hex H2 Hf2). reflexivity.
+Qed.
+
+Theorem jsonrpc_more_results_panics : forall id rts vs extra rh,
+  (2 <= length rts)%nat -> length rts = length vs -> extra <> [] ->
+  J_response (jresponse_of id (inl (GSlice (vs ++ extra))) rh) ->
+  Forall jrep vs -> jfits_all rts vs ->
+  jclient_decode junmarshal_resp jconv rts (jservice_encode jmarshal_resp id (inl (GSlice (vs ++ extra))) rh) = JCPanic.
+Proof.
+  intros id rts vs extra rh Hn Hl Hex Hp Hr Hf.
+  unfold jservice_encode, jclient_decode. rewrite Hp. unfold jnorm_resp, jresponse_of.
+  cbn [jp_id jp_headers jp_result jp_error option_map]. rewrite Harray, map_app.
+  destruct rts as [|t0 [|t1 rts]]; [cbn in Hn; lia|cbn in Hn; lia|].
+  rewrite (jconv_results_overflow (t0 :: t1 :: rts) vs (map jnorm extra) Hl); auto.
+  destruct extra; [contradiction|discriminate].
 Qed.
 
 (* errors: code / message / data mapping *)
